@@ -38,6 +38,8 @@ type Prov struct {
 	MuAddr string // term for the mutex address
 	Field  string
 	MuText string
+	Unguarded bool // loaded from a field of a shared structure that has no guard
+	Replaced  bool // loaded from a guarded field whose object is immutable once published
 }
 
 // Addr is a statically resolved address.
@@ -129,6 +131,7 @@ type Frame struct {
 	// unchanged): every write inside them to an address that is neither loop-invariant nor statically fresh must
 	// be proved to hit an object allocated by this function (obligation kind loop-frame)
 	weakLoops map[*ssa.BasicBlock]*weakLoop
+	autoLock  map[*ssa.BasicBlock][]autoLockInv
 }
 
 type weakLoop struct {
@@ -328,7 +331,7 @@ func (fr *FuncRun) assertOb(st *State, kind, base string, cond string, pos token
 
 func needsOrdinal(kind string) bool {
 	switch kind {
-	case "nil", "index", "slice", "div0", "nilmap-store", "assert-type", "guarded", "lock-reentry", "unlock-not-held", "slice2array", "pre", "closed-send", "lockinv", "explicit-panic", "negative-len":
+	case "nil", "index", "slice", "div0", "nilmap-store", "assert-type", "guarded", "lock-reentry", "unlock-not-held", "slice2array", "pre", "closed-send", "lockinv", "explicit-panic", "negative-len", "unguarded-write", "loop-frame":
 		return true
 	}
 	return false
